@@ -74,6 +74,11 @@ JudgeGeometry(g) ==
     ELSE IF g.k_sq_entries # NextPow2From(1, g.requested) \/ g.k_cq_entries # 2 * g.k_sq_entries THEN "harness_geometry_expectation"
     ELSE IF g.w_sq_entries # g.k_sq_entries \/ g.w_cq_entries # g.k_cq_entries THEN "ring_entries_differ_from_kernel"
     ELSE IF g.w_sq_mask # g.k_sq_entries - 1 \/ g.w_cq_mask # g.k_cq_entries - 1 THEN "ring_mask_differs_from_kernel"
+    \* every ring pointer the wrapper derived (sq head, tail, flags, dropped, array; cq head, tail, overflow, cqes, flags)
+    \* lies at the offset the kernel reports for exactly that field
+    ELSE IF g.w_off # g.k_off THEN "ring_pointer_not_at_the_offset_the_kernel_reports"
+    \* the kernel takes submission entry array[i] for ring position i: set-up must leave the identity there
+    ELSE IF ~g.array_ok THEN "index_array_does_not_name_the_slots"
     ELSE ""
 
 \* one lap over a whole ring: every slot of the submission ring filled once (entries numbered 1..n), submitted in one
